@@ -266,7 +266,7 @@ def xy(ctx):
         out = []
         o = env.reset()
         out.append((env.now(), o.tobytes()))
-        done = bool(env._done)
+        done = ep.reset_ended_episode(env)
         k = 0
         while not done:
             if k > n + 2:
